@@ -303,7 +303,7 @@ def ob_batchinv(ctx, n):
     s = z3.Solver(); s.set('timeout', 60000)
     # inverted value is the product of all inputs; each result times its input equals I·Π src (polynomial identities, no hypotheses)
     bad = [X != prod] + [rd(Ptr(res, 24 * i)) * xs[i] != I_ * prod for i in range(n)]
-    s.add(z3.Or(bad)); r = s.check(); smt.STATS['queries'] += 1
+    s.add(z3.Or(bad)); r = smt.check(s)
     if r == z3.unsat: return ok('size %d: one inversion of Π src; res[i]·src[i] = I·Π src for all i (ring identities); extents exact' % n, sample=dict(op='batchInverse', size=n))
     if r == z3.sat: return viol('batchInverse', 'batchInverse(size=%d) is not element-wise inversion: %s' % (n, s.model()), replay=dict(event='batchInverse', size=n))
     return inconc('batchInverse identity unknown')
